@@ -1,5 +1,6 @@
 /- L0 facts about FastStochastic::reset (split from Lemmas/FastStochastic.lean so that a change to one method only invalidates the facts about that method) -/
-import TaRs.Lemmas.FastStochastic
+import TaRs.Lemmas.Core.FastStochastic
+import TaRs.Lemmas.Total.FastStochastic
 import TaRs.Lemmas.Reset.Minimum
 import TaRs.Lemmas.Reset.Maximum
 set_option linter.unusedSectionVars false
@@ -19,9 +20,5 @@ theorem reset_wiring (s : FastStochastic F) (mn' : Minimum F) (mx' : Maximum F)
 theorem reset_eq (s : FastStochastic F) (h : WF s) : s.reset = some (fresh s.period) := by
   rw [reset_wiring s _ _ (Minimum.reset_eq _ h.min) (Maximum.reset_eq _ h.max), h.pmin, h.pmax]
   rfl
-
-theorem reset_wf (s : FastStochastic F) (h : WF s) :
-    ∃ r, s.reset = some r ∧ WF r ∧ r.period = s.period :=
-  ⟨_, reset_eq s h, fresh_wf _ h.pos (h.pmin ▸ h.min.small), rfl⟩
 
 end TaRs.Gen.FastStochastic
